@@ -41,6 +41,7 @@ theorem clean_inA {p : Par} {s : State} {t0 : Nat} {frs : List Frm} {gab grest :
     (∀ fr ∈ frs, FrValid s.A.conv fr) ∧
     (inFrs true frs { k := s.A }).panic = false ∧ (inFrs true frs { k := s.A }).ret = 0 ∧
     (cwndOnAck k1 s.A.snd_una).acklist = [] ∧
+    (cwndOnAck k1 s.A.snd_una).snd_nxt = s.A.snd_nxt ∧ (cwndOnAck k1 s.A.snd_una).snd_queue = s.A.snd_queue ∧
     Clean p { s with A := cwndOnAck k1 s.A.snd_una, ba := encL grest } gab grest := by
   unfold NoWrap at hnw
   have hv : ∀ fr ∈ frs, FrValid s.A.conv fr := by
@@ -78,7 +79,7 @@ theorem clean_inA {p : Par} {s : State} {t0 : Nat} {frs : List Frm} {gab grest :
       { s.A with rmt_wnd := rw, snd_buf := s.A.snd_buf.drop c, snd_una := su, probe := pr,
                  rx_srtt := a, rx_rttvar := b, rx_rto := r, cwnd := cw, incr := inc } := by
     rw [hcw, he, hk]
-  refine ⟨hv, hpn, hrt, by rw [hK]; exact h.aack, ?_⟩
+  refine ⟨hv, hpn, hrt, by rw [hK]; exact h.aack, by rw [hK], by rw [hK], ?_⟩
   constructor
   · exact h.hab
   · rfl
